@@ -33,6 +33,9 @@ type vDialScenario struct {
 	StallName string   `json:"stallname"`
 	StallPt   int      `json:"stallpt"`
 	StallOcc  int      `json:"stallocc"`
+	UntilName string   `json:"untilname"`
+	UntilPt   int      `json:"untilpt"`
+	UntilOcc  int      `json:"untilocc"`
 	Peer      string   `json:"peer"`   // listen | refuse | drop
 	Expire    bool     `json:"expire"` // the context may expire (scheduler choice)
 	Free      bool     `json:"free"`   // free-running batch instead
@@ -141,6 +144,7 @@ func vRunDialControlled(sc *vDialScenario) ([]vOutEvent, map[string]interface{})
 	}
 	s.plan = sc.Plan
 	s.stallName, s.stallPt, s.stallOcc = sc.StallName, int32(sc.StallPt), sc.StallOcc
+	s.untilName, s.untilPt, s.untilOcc = sc.UntilName, int32(sc.UntilPt), sc.UntilOcc
 	var mu sync.Mutex
 	var out []vOutEvent
 	ev := func(e, k string, n, m int, err string) {
